@@ -370,6 +370,23 @@ func genC11(g *GenCtx) {
 			g.Op("stopfeed %s", HexOrDash(late))
 		}
 	}
+	// … and two of them: a request while Stop is still waiting for the tubes (the muxer is stopping), the
+	// same request (the peer's retransmission) or traffic for that tube after the send queues were closed
+	for p := 0; p < 2; p++ {
+		for _, first := range [][]byte{muxh.Init(3, "Q", 7), muxh.Init(3, "QLA", 7), muxh.Init(byte(p), "Q", 2), muxh.Init(byte(1-p), "QLA", 5)} {
+			for _, second := range [][]byte{first, muxh.Frame(first[0], "-", 0, 1, []byte("late")), muxh.Frame(first[0], "L", 1, 1, []byte("late"))} {
+				// (a) an open tube whose peer stays silent keeps Stop waiting
+				x := &gen{g: g, parity: p, salt: 1}
+				g.Op("new %d", p)
+				v := x.openRemote(true, 9, 7)
+				x.traffic(v, 1)
+				g.Op("stopfeed2 %s %s", HexOrDash(first), HexOrDash(second))
+				// (b) nothing to wait for
+				g.Op("new %d", p)
+				g.Op("stopfeed2 %s %s", HexOrDash(first), HexOrDash(second))
+			}
+		}
+	}
 	n := 500
 	if g.Thorough() {
 		n = 16000 / g.Parts
